@@ -40,6 +40,16 @@ check("C13", "exploration",
       "ancestor-bitset oracle (validated against git 2.39.5 each run); excludes under skewed clocks only checked for duplicates/containment as the statement exempts them",
       "DESIGN.md §5 C13")
 
+check("C03", "exploration",
+      "sandboxed runtime monitoring of the real delta decoders/encoders (Python and freshly built Rust) under a kernel-enforced allocation budget (RLIMIT_AS per call), exhaustive short deltas + structured hostile deltas against a patch-delta.c reference oracle; encoder x decoder matrix incl. C git via packs",
+      "Every byte string of length <=5 (thorough <=6) over an 11-symbol opcode alphabet x 4 bases, plus structured hostile deltas, is "
+      "applied by both dulwich decoders in crash-isolated workers whose address-space limit is lowered around each call; outcome "
+      "class (value / ApplyDeltaError / other exception / panic / abort / MemoryError / hang) and output bytes are judged against an "
+      "independent transcription of git's patch-delta.c. Generated (base,target) pairs run through python/rust/git encoders x "
+      "python/rust/git decoders. Exhaustive only in the stated sub-space.",
+      "reference decoder transcribes patch-delta.c and is cross-checked against C git in the same run; deltas shorter than git's DELTA_SIZE_MIN are not offered to the git decoder; lenient acceptance (invalid trailing op skipped) is tolerated when the output has the declared length and is composed of the valid ops",
+      "DESIGN.md §5 C03")
+
 ALL = ["C%02d" % i for i in range(1, 21)]
 
 
